@@ -195,6 +195,18 @@ func c20Token(c *Ctx) {
 					if _, isDbg := in.(*ssa.DebugRef); isDbg {
 						continue
 					}
+					// text for humans (error messages, logs) is not part of the protocol
+					if _, boxed := in.(*ssa.MakeInterface); boxed {
+						continue
+					}
+					if ci, ok := in.(ssa.CallInstruction); ok {
+						if cal := ci.Common().StaticCallee(); cal != nil && cal.Pkg != nil {
+							switch cal.Pkg.Pkg.Path() {
+							case "fmt", "log", "errors":
+								continue
+							}
+						}
+					}
 					nth++
 					n++
 					r.Check(s == sep || s == w, "C20/TOKEN", fmt.Sprintf("%s token constant #%d", fnShort(fn), nth), p.Pos(in.Pos()), fmt.Sprintf("%q", s),
